@@ -46,6 +46,8 @@ PROBES = ["pre_existing_output:partial", "fault:error@close", "fault:crash_after
 def gen_plan(rng, tier, run):
     mode = "json" if rng.random() < 0.6 else "file"
     plan = {"mode": mode,
+            # process model: every invocation in a fresh module set (= its own process) or all in one process
+            "fresh": rng.random() < 0.12,
             "bufsize": rng.choice([0, 64, 8192, None, None]),
             "stdout_bufsize": rng.choice([0, 8192, None]),
             "order": {"policy": rng.choice(["perm", "asc", "desc"]), "key": rng.randrange(1 << 30)},
@@ -271,6 +273,8 @@ def execute(plan):
     evals = events = 0
     h = hashlib.sha256()
     with World() as w:
+        w.fresh_per_run = bool(plan.get("fresh"))
+        bump("process_model:fresh" if w.fresh_per_run else "process_model:shared")
         ref0, ref0_snap = run_once(w, plan, originals, None, reference=True)
         if ref0.crashed or ref0.exc:
             raise HarnessError("reference execution did not complete: %s %s" % (ref0.exc, ref0.stderr[-500:]))
